@@ -120,8 +120,11 @@ func (e *zz06Env) paramsAt(h uint32) *zz06Params {
 	return e.setA
 }
 
+// header: the node's own block header at height h. Symbolically every own header has the placeholder
+// ID e.ownID; natively the ID is the real one (hash of the encoded header), so that headers read back
+// from the database and cached headers agree.
 func (e *zz06Env) header(h uint32) *blockchain.BlockHeader {
-	return &blockchain.BlockHeader{
+	hd := &blockchain.BlockHeader{
 		ID:              e.ownID,
 		Version:         2,
 		Height:          h,
@@ -129,6 +132,23 @@ func (e *zz06Env) header(h uint32) *blockchain.BlockHeader {
 		StateRoot:       []byte{0x57},
 		ValidatorsHash:  []byte{0x11},
 		AggregateCommit: &blockchain.AggregateCommit{Height: e.removalHeight, AggregationBits: []byte{}, CertificateSignature: []byte{}},
+	}
+	if !e.t.Symbolic() {
+		hd.Init()
+	}
+	return hd
+}
+
+// store writes own headers into the native database (any heights, unlike the block cache).
+func (e *zz06Env) storeHeaders(hs ...uint32) {
+	if e.t.Symbolic() {
+		return
+	}
+	for _, h := range hs {
+		if h > e.tip {
+			continue
+		}
+		_ = e.chain.AddBlock(e.database.NewBatch(), &blockchain.Block{Header: e.header(h)}, nil, 0, false)
 	}
 }
 
